@@ -101,6 +101,10 @@ def ber_len(n, octets):
 
 
 def tlv(tag, content, octets=0):
+    """octets == -1: the indefinite form (X.690 8.1.3.6; constructed encodings only) - not allowed in LDAP (RFC 4511
+    s5.1), used only as input for the byte-level checks: if a parser accepts it, n must still be exact."""
+    if octets == -1:
+        return bytes((tag, 0x80)) + bytes(content) + b'\x00\x00'
     return bytes((tag,)) + ber_len(len(content), octets) + bytes(content)
 
 
